@@ -251,16 +251,28 @@ fn main() {
                             let prekey = to_ascii_json(&pre);
                             let mut steps = vec![];
                             // queries run on one instance (they must not change it: checked by projection afterwards)
+                            // (replaying a call path is deterministic except where the implementation's hash order shows, e.g. the
+                            // kind recorded with a link that a copy created before / after its target: every instance is therefore
+                            // projected itself and judged from ITS pre-state)
+                            let mut odd: Vec<Value> = vec![];
                             let qm = build();
+                            let qpre = memproj::project(&qm);
+                            let qsame = to_ascii_json(&qpre) == prekey;
+                            let mut qsteps = vec![];
                             for q in qs.iter() {
                                 let id = counter.fetch_add(1, Ordering::Relaxed);
                                 prog.mark_slot(t, id, &to_ascii_json(q));
                                 let r = apply(&qm, q);
-                                steps.push(json!({"c": q, "r": r, "same": "t", "post": []}));
+                                qsteps.push(json!({"c": q, "r": r, "same": "t", "post": []}));
                             }
                             let after = memproj::project(&qm);
-                            if to_ascii_json(&after) != prekey {
-                                steps.push(json!({"c": call("queries-changed-state", "", ""), "r": r_ok(json!([])), "same": "f", "post": after}));
+                            if to_ascii_json(&after) != to_ascii_json(&qpre) {
+                                qsteps.push(json!({"c": call("queries-changed-state", "", ""), "r": r_ok(json!([])), "same": "f", "post": after}));
+                            }
+                            if qsame {
+                                steps.extend(qsteps);
+                            } else {
+                                odd.push(json!({"k": "g", "be": "memfs", "route": "direct", "pre": qpre, "steps": qsteps}));
                             }
                             for (ci, c) in muts.iter().enumerate() {
                                 if skip_hang && known_hang(c, &pre) {
@@ -268,23 +280,33 @@ fn main() {
                                     continue;
                                 }
                                 let m = build();
+                                let mypre = memproj::project(&m);
+                                let mykey = to_ascii_json(&mypre);
                                 let id = counter.fetch_add(1, Ordering::Relaxed);
                                 prog.mark_slot(t, id, &format!("state-path={:?} call={}", path, to_ascii_json(c)));
                                 let r = apply(&m, c);
                                 let post = memproj::project(&m);
                                 let key = to_ascii_json(&post);
-                                if key == prekey {
-                                    steps.push(json!({"c": c, "r": r, "same": "t", "post": []}));
+                                let step = if key == mykey {
+                                    json!({"c": c, "r": r, "same": "t", "post": []})
                                 } else {
                                     if expandable(cfg, &post) {
                                         let mut np = path.clone();
                                         np.push(ci as u32);
                                         newst.push((key, np));
                                     }
-                                    steps.push(json!({"c": c, "r": r, "same": "f", "post": post}));
+                                    json!({"c": c, "r": r, "same": "f", "post": post})
+                                };
+                                if mykey == prekey {
+                                    steps.push(step);
+                                } else {
+                                    odd.push(json!({"k": "g", "be": "memfs", "route": "direct", "pre": mypre, "steps": [step]}));
                                 }
                             }
                             out.rec(&json!({"k": "g", "be": "memfs", "route": "direct", "pre": pre, "steps": steps}));
+                            for o in odd {
+                                out.rec(&o);
+                            }
                         }
                         prog.mark_slot(t, counter.load(Ordering::Relaxed), "idle");
                         newst
